@@ -1,10 +1,388 @@
 (* Property C12 - envelopes are the tightest boxes; envelope algebra matches interval arithmetic.
-   Statements only; proofs are in Proofs/Envelope_proofs.v. *)
-From Coq Require Import ZArith QArith List Bool Permutation.
+   Statements only; proofs are in Proofs/Envelope_proofs.v. The model (Model/Envelope.v) is a
+   transcription of geom/type_envelope.go and of every type's Envelope() method, parametric in the
+   ordinate carrier; the theorems are about its integer-lattice instance [ZO] and hold for ALL
+   envelopes / geometries over Z (no bound on sizes or nesting).
+
+   Reading guide:  zenv = option box (None = the empty envelope);
+     inside b p        p lies in the closed rectangle b            (closed intervals on both axes)
+     inside_env e p    the same for an envelope (no point is inside the empty envelope)
+     wf_env e          min <= max on both axes - what every exported constructor produces
+     Tight ps e        e is empty iff ps = []; otherwise all points of ps are inside e and each
+                       of the four sides of e passes through a point of ps
+     ctrl_xys g        XY of all control points of g (what DumpCoordinates returns)            *)
+From Coq Require Import ZArith QArith List Bool Permutation Lia.
 From SF Require Import Base.GeomAST Model.Envelope Proofs.Envelope_proofs.
 Import ListNotations.
 Open Scope Z_scope.
 
+(* ================= 1. join = ExpandToIncludeEnvelope: commutative idempotent monoid ========== *)
 Theorem join_comm : forall a b : zenv, join ZO a b = join ZO b a.
 Proof. exact join_comm_lemma. Qed.
 Print Assumptions join_comm.
+
+Theorem join_assoc : forall a b c : zenv, join ZO (join ZO a b) c = join ZO a (join ZO b c).
+Proof. exact join_assoc_lemma. Qed.
+Print Assumptions join_assoc.
+
+Theorem join_idem : forall a : zenv, join ZO a a = a.
+Proof. exact join_idem_lemma. Qed.
+Print Assumptions join_idem.
+
+Theorem join_empty_identity : forall a : zenv, join ZO None a = a /\ join ZO a None = a.
+Proof. exact join_empty_identity_lemma. Qed.
+Print Assumptions join_empty_identity.
+
+(* the join is the smallest envelope covering both: it contains both operands' points and is the
+   tight box of the union of any two point lists the operands are tight for *)
+Theorem join_is_least_cover : forall (l1 l2 : list (Z * Z)) (e1 e2 : zenv),
+  Tight l1 e1 -> Tight l2 e2 -> Tight (l1 ++ l2) (join ZO e1 e2).
+Proof. exact tight_join. Qed.
+Print Assumptions join_is_least_cover.
+
+(* ExpandToIncludeXY is the join with a point envelope; NewEnvelope is the tight box of its arguments *)
+Theorem expand_xy_is_join : forall (e : zenv) p, expand_xy ZO e p = join ZO e (new_envelope ZO [p]).
+Proof. exact expand_xy_join. Qed.
+Print Assumptions expand_xy_is_join.
+
+Theorem new_envelope_tight : forall ps, Tight ps (new_envelope ZO ps).
+Proof. exact new_envelope_tight_lemma. Qed.
+Print Assumptions new_envelope_tight.
+
+(* a tight box is unique, and depends on the SET of points only *)
+Theorem tight_unique : forall ps qs (e1 e2 : zenv),
+  (forall p, In p ps <-> In p qs) -> Tight ps e1 -> Tight qs e2 -> e1 = e2.
+Proof. exact tight_unique_set. Qed.
+Print Assumptions tight_unique.
+
+(* the executable statement evaluated on the implementation's outputs is exactly Tight *)
+Theorem tight_spec_iff : forall ps (e : zenv), tight_spec ZO ps e = true <-> Tight ps e.
+Proof. exact tight_spec_iff_lemma. Qed.
+Print Assumptions tight_spec_iff.
+
+(* ================= 2. predicates against the closed-interval point sets ===================== *)
+Theorem contains_iff : forall (e : zenv) p, contains ZO e p = true <-> inside_env e p.
+Proof. exact contains_iff_lemma. Qed.
+Print Assumptions contains_iff.
+
+Theorem intersects_iff_common_point : forall a b : zenv,
+  wf_env a -> wf_env b ->
+  (intersects ZO a b = true <-> exists p, inside_env a p /\ inside_env b p).
+Proof. exact intersects_iff_lemma. Qed.
+Print Assumptions intersects_iff_common_point.
+
+(* Covers is set inclusion when the covered envelope is non-empty ... *)
+Theorem covers_iff_subset : forall a b : zbox,
+  wf_box b -> (covers ZO (Some a) (Some b) = true <-> forall p, inside b p -> inside a p).
+Proof. exact covers_iff_lemma. Qed.
+Print Assumptions covers_iff_subset.
+
+(* ... and the empty envelope is absorbing for all three predicates, on either side. For Covers
+   this is what type_envelope.go documents ("an envelope can only be covered if it is non-empty"),
+   NOT the set-theoretic reading, under which everything would cover the empty envelope. *)
+Theorem empty_absorbing : forall (a : zenv) p,
+  contains ZO None p = false /\
+  intersects ZO None a = false /\ intersects ZO a None = false /\
+  covers ZO a None = false /\ covers ZO None a = false.
+Proof. exact empty_absorbing_lemma. Qed.
+Print Assumptions empty_absorbing.
+
+Theorem intersects_sym : forall a b : zenv, intersects ZO a b = intersects ZO b a.
+Proof. exact intersects_sym_lemma. Qed.
+Print Assumptions intersects_sym.
+
+Theorem covers_iff_join_absorbs : forall a b : zenv,
+  b <> None -> wf_env a -> (covers ZO a b = true <-> join ZO a b = a).
+Proof. exact covers_join_lemma. Qed.
+Print Assumptions covers_iff_join_absorbs.
+
+(* ================= 3. Distance (squared) ===================================================== *)
+(* defined iff both operands are non-empty; a lower bound over all point pairs; attained *)
+Theorem dist2_defined : forall a b : zenv, dist2 a b = None <-> (a = None \/ b = None).
+Proof. exact dist2_defined_lemma. Qed.
+Print Assumptions dist2_defined.
+
+Theorem dist2_lower_bound : forall (a b : zbox) d p q,
+  dist2 (Some a) (Some b) = Some d -> inside a p -> inside b q -> d <= sqd p q.
+Proof. exact dist2_lower_bound_lemma. Qed.
+Print Assumptions dist2_lower_bound.
+
+Theorem dist2_attained : forall a b : zbox,
+  wf_box a -> wf_box b ->
+  exists d p q, dist2 (Some a) (Some b) = Some d /\ inside a p /\ inside b q /\ sqd p q = d.
+Proof. exact dist2_attained_lemma. Qed.
+Print Assumptions dist2_attained.
+
+Theorem dist2_sym : forall a b : zenv, dist2 a b = dist2 b a.
+Proof. exact dist2_sym_lemma. Qed.
+Print Assumptions dist2_sym.
+
+Theorem dist2_zero_iff_intersects : forall a b : zbox,
+  wf_box a -> wf_box b -> (dist2 (Some a) (Some b) = Some 0 <-> intersects ZO (Some a) (Some b) = true).
+Proof. exact dist2_zero_iff_intersects_lemma. Qed.
+Print Assumptions dist2_zero_iff_intersects.
+
+(* ================= 4. classification, measures, centre, accessors =========================== *)
+(* exactly one of IsEmpty / IsPoint / IsLine / IsRectangle holds *)
+Theorem classification_exclusive_exhaustive : forall e : zenv,
+  (b2n (env_is_empty e) + b2n (env_is_point ZO e) + b2n (env_is_line ZO e)
+   + b2n (env_is_rectangle ZO e) = 1)%nat.
+Proof. exact classification_lemma. Qed.
+Print Assumptions classification_exclusive_exhaustive.
+
+Theorem classification_meaning : forall b : zbox, wf_box b ->
+  (env_is_point ZO (Some b) = true <-> (minx b = maxx b /\ miny b = maxy b)) /\
+  (env_is_line ZO (Some b) = true <-> (area (Some b) = 0 /\ 0 < width (Some b) + height (Some b))) /\
+  (env_is_rectangle ZO (Some b) = true <-> 0 < area (Some b)).
+Proof. exact classification_meaning_lemma. Qed.
+Print Assumptions classification_meaning.
+
+Theorem measures : forall e : zenv,
+  area e = width e * height e /\ (wf_env e -> 0 <= width e /\ 0 <= height e /\ 0 <= area e) /\
+  width None = 0 /\ height None = 0 /\ area None = 0.
+Proof. exact measures_lemma. Qed.
+Print Assumptions measures.
+
+(* Center is the midpoint (equidistant from opposite sides) and lies inside; empty -> empty point *)
+Theorem center_is_midpoint : forall (b : zbox) (cx cy : Q),
+  wf_box b -> center (Some b) = Some (cx, cy) ->
+  (cx - inject_Z (minx b) == inject_Z (maxx b) - cx /\ cy - inject_Z (miny b) == inject_Z (maxy b) - cy /\
+   inject_Z (minx b) <= cx <= inject_Z (maxx b) /\ inject_Z (miny b) <= cy <= inject_Z (maxy b))%Q.
+Proof. exact center_lemma. Qed.
+Print Assumptions center_is_midpoint.
+
+Theorem accessors : forall b : zbox,
+  env_min ZO (Some b) = MkPoint XY (Some (Build_vtx (minx b) (miny b) 0 0)) /\
+  env_max ZO (Some b) = MkPoint XY (Some (Build_vtx (maxx b) (maxy b) 0 0)) /\
+  min_max_xys ZO (Some b) = ((minx b, miny b), (maxx b, maxy b), true) /\
+  as_box ZO (Some b) = ((minx b, miny b, maxx b, maxy b), true) /\
+  env_min ZO None = MkPoint XY None /\ env_max ZO None = MkPoint XY None /\
+  snd (min_max_xys ZO None) = false /\ snd (as_box ZO None) = false.
+Proof. exact min_max_lemma. Qed.
+Print Assumptions accessors.
+
+(* AsGeometry / BoundingDiagonal: the result has the envelope it came from, and AsGeometry's type
+   follows the classification *)
+Theorem as_geometry_env : forall e : zenv, wf_env e -> env_of ZO (as_geometry ZO e) = e.
+Proof. exact as_geometry_env_lemma. Qed.
+Print Assumptions as_geometry_env.
+
+Theorem bounding_diagonal_env : forall e : zenv, wf_env e -> env_of ZO (bounding_diagonal ZO e) = e.
+Proof. exact bounding_diagonal_env_lemma. Qed.
+Print Assumptions bounding_diagonal_env.
+
+Theorem as_geometry_shape : forall e : zenv,
+  match as_geometry ZO e with
+  | GColl XY [] => env_is_empty e = true
+  | GPoint _ => env_is_point ZO e = true
+  | GLine _ => env_is_line ZO e = true
+  | GPoly _ => env_is_rectangle ZO e = true
+  | _ => False
+  end.
+Proof. exact as_geometry_shape_lemma. Qed.
+Print Assumptions as_geometry_shape.
+
+(* TransformXY: the tight box of the images of the two stored corners (for any map fn) *)
+Theorem transform_xy_tight : forall fn (b : zbox),
+  Tight [fn (minx b, miny b); fn (maxx b, maxy b)] (transform_xy ZO fn (Some b)) /\
+  transform_xy ZO fn None = None.
+Proof. exact transform_xy_lemma. Qed.
+Print Assumptions transform_xy_tight.
+
+(* ================= 5. Envelope() of geometries =============================================== *)
+(* every envelope the API hands out is well-formed *)
+Theorem envelopes_wf : forall (g : geomT Z) (a b : zenv) ps,
+  wf_env (env_of ZO g) /\ wf_env (new_envelope ZO ps) /\ (wf_env a -> wf_env b -> wf_env (join ZO a b)).
+Proof. exact envelopes_wf_lemma. Qed.
+Print Assumptions envelopes_wf.
+
+(* TIGHTNESS. Envelope() is THE tight box of all control points: empty iff there is none,
+   otherwise every control point lies inside and each of the four sides is attained. For polygons
+   the code looks at the exterior ring only; the statement therefore carries the hypothesis the
+   code relies on: every control point of a hole lies in the box of its exterior ring
+   ([holes_in_shell_box], a consequence of validity; trivially true for non-areal geometries). *)
+Theorem env_of_tight : forall g : geomT Z,
+  holes_in_shell_box ZO g = true -> Tight (ctrl_xys g) (env_of ZO g).
+Proof. exact env_of_tight_lemma. Qed.
+Print Assumptions env_of_tight.
+
+(* the two halves separately: containment needs the hypothesis, attainment does not *)
+Theorem env_of_contains_ctrl : forall g : geomT Z,
+  holes_in_shell_box ZO g = true ->
+  forall v, In v (geom_vs g) -> inside_env (env_of ZO g) (vxy v).
+Proof. exact env_of_contains_ctrl_lemma. Qed.
+Print Assumptions env_of_contains_ctrl.
+
+Theorem env_of_sides_attained : forall (g : geomT Z) b,
+  env_of ZO g = Some b ->
+  (exists p, In p (ctrl_xys g) /\ fst p = minx b) /\ (exists p, In p (ctrl_xys g) /\ snd p = miny b) /\
+  (exists p, In p (ctrl_xys g) /\ fst p = maxx b) /\ (exists p, In p (ctrl_xys g) /\ snd p = maxy b).
+Proof. exact env_of_sides_attained_lemma. Qed.
+Print Assumptions env_of_sides_attained.
+
+(* without hypothesis: Envelope() is the tight box of the positions it visits *)
+Theorem env_of_is_new_envelope_of_visited : forall g : geomT Z,
+  env_of ZO g = new_envelope ZO (visited_xys g) /\ incl (visited_xys g) (ctrl_xys g).
+Proof. exact env_of_visited_incl_lemma. Qed.
+Print Assumptions env_of_is_new_envelope_of_visited.
+
+(* EMPTINESS. Envelope() is empty iff the geometry is empty, provided no polygon has an empty
+   exterior ring (type_polygon.go:IsEmpty: "Rings are not allowed to be empty") *)
+Theorem env_of_empty_iff : forall g : geomT Z,
+  shells_nonempty g = true -> (env_of ZO g = None <-> is_empty g = true).
+Proof. exact env_of_empty_iff_lemma. Qed.
+Print Assumptions env_of_empty_iff.
+
+(* CONVEXITY. The box contains every point of every segment between points it contains; hence
+   every point of every edge of the geometry (rational points r = (1-t) u + t v, 0 <= t <= 1) *)
+Theorem box_contains_segment : forall (b : zbox) p q r,
+  inside b p -> inside b q -> on_segment p q r -> insideQ b r.
+Proof. exact box_contains_segment_lemma. Qed.
+Print Assumptions box_contains_segment.
+
+Theorem env_of_contains_segment : forall (g : geomT Z) b u v r,
+  holes_in_shell_box ZO g = true -> env_of ZO g = Some b ->
+  In u (geom_vs g) -> In v (geom_vs g) -> on_segment (vxy u) (vxy v) r -> insideQ b r.
+Proof. exact env_of_contains_segment_lemma. Qed.
+Print Assumptions env_of_contains_segment.
+
+(* INVARIANCE under representation changes *)
+Theorem env_of_reverse : forall g : geomT Z, env_of ZO (reverse_geom g) = env_of ZO g.
+Proof. exact env_of_reverse_lemma. Qed.
+Print Assumptions env_of_reverse.
+
+(* ForceCoordinatesType to any type (Force2D is the XY case) *)
+Theorem env_of_force_coordinates_type : forall ct (g : geomT Z), env_of ZO (force_geom 0 ct g) = env_of ZO g.
+Proof. exact env_of_force_lemma. Qed.
+Print Assumptions env_of_force_coordinates_type.
+
+(* ForceCW / ForceCCW: whichever rings the orientation test decides to reverse *)
+Theorem env_of_force_orientation : forall (keep : bool -> lineT Z -> bool) (g : geomT Z),
+  env_of ZO (orient_geom keep g) = env_of ZO g.
+Proof. exact env_of_orient_lemma. Qed.
+Print Assumptions env_of_force_orientation.
+
+(* member reordering at any collection-like node *)
+Theorem env_of_member_permutation : forall g h : geomT Z,
+  match g, h with
+  | GMPoint _ l, GMPoint _ l' => Permutation l l'
+  | GMLine _ l, GMLine _ l' => Permutation l l'
+  | GMPoly _ l, GMPoly _ l' => Permutation l l'
+  | GColl _ l, GColl _ l' => Permutation l l'
+  | _, _ => False
+  end -> env_of ZO g = env_of ZO h.
+Proof. exact env_of_perm_lemma. Qed.
+Print Assumptions env_of_member_permutation.
+
+(* a closed ring v0 .. v0 started at another vertex (drop the closing vertex, rotate by k, close
+   again) has the same envelope; so has a polygon whose exterior ring is rotated (holes arbitrary) *)
+Theorem env_of_ring_rotation : forall ct c k (v0 : vtx Z) mid hs hs',
+  line_env ZO (MkLine c (rotate_closed k (v0 :: mid ++ [v0]))) = line_env ZO (MkLine c (v0 :: mid ++ [v0])) /\
+  poly_env ZO (MkPoly ct (MkLine c (rotate_closed k (v0 :: mid ++ [v0])) :: hs')) =
+  poly_env ZO (MkPoly ct (MkLine c (v0 :: mid ++ [v0]) :: hs)).
+Proof. exact ring_rotation_lemma. Qed.
+Print Assumptions env_of_ring_rotation.
+
+(* more generally: the envelope depends only on the SET of visited positions *)
+Theorem env_of_depends_on_point_set : forall g h : geomT Z,
+  (forall p, In p (visited_xys g) <-> In p (visited_xys h)) -> env_of ZO g = env_of ZO h.
+Proof. exact env_of_ext. Qed.
+Print Assumptions env_of_depends_on_point_set.
+
+(* COLLECTIONS: the envelope is the join of the members' envelopes *)
+Theorem env_of_collection_join : forall ct (gs : list (geomT Z)) (ps : list (pointT Z))
+                                        (ls : list (lineT Z)) (ys : list (polyT Z)),
+  env_of ZO (GColl ct gs) = fold_right (join ZO) None (map (env_of ZO) gs) /\
+  env_of ZO (GMPoint ct ps) = fold_right (join ZO) None (map (point_env ZO) ps) /\
+  env_of ZO (GMLine ct ls) = fold_right (join ZO) None (map (line_env ZO) ls) /\
+  env_of ZO (GMPoly ct ys) = fold_right (join ZO) None (map (poly_env ZO) ys).
+Proof. exact collection_join_lemma. Qed.
+Print Assumptions env_of_collection_join.
+
+Theorem env_of_collection_concat : forall ct ct1 ct2 (gs1 gs2 : list (geomT Z)),
+  env_of ZO (GColl ct (gs1 ++ gs2)) = join ZO (env_of ZO (GColl ct1 gs1)) (env_of ZO (GColl ct2 gs2)).
+Proof. exact env_of_coll_app_lemma. Qed.
+Print Assumptions env_of_collection_concat.
+
+(* ================= 6. the enumerating statements of the correspondence run =================== *)
+(* On well-formed envelopes the point-enumerating statements evaluated on the implementation's
+   outputs (common lattice point; every lattice point of b is one of a; least squared distance
+   over all pairs of lattice points) coincide with the modelled methods. *)
+Theorem enumerating_specs_agree : forall a b : zenv, wf_env a -> wf_env b ->
+  intersects_spec a b = intersects ZO a b /\ covers_spec a b = covers ZO a b /\ dist2_spec a b = dist2 a b.
+Proof. exact enumerating_specs_lemma. Qed.
+Print Assumptions enumerating_specs_agree.
+
+(* ================= 7. from the lattice to float64 ============================================ *)
+(* The same transcription instantiated with the float64 comparison primitives on sign-magnitude
+   keys ([KO]; NaN = None, see key_of_bits) computes, on every geometry without NaN, the image of
+   what the integer instance computes on the keys. The key of a non-NaN double IS an integer, so
+   every NaN-free float64 geometry has the form [map_geom Some g] and the theorems of section 5
+   (which only select and compare ordinates) apply to it, modulo the key's identification of -0
+   with +0. NaN inputs are covered by the correspondence run only. *)
+Theorem env_of_float_keys_agree : forall g : geomT Z,
+  env_of KO (map_geom Some g) = lift_env (env_of ZO g).
+Proof. exact env_of_lift_lemma. Qed.
+Print Assumptions env_of_float_keys_agree.
+
+(* ================= Examples: hypotheses are satisfiable; they are needed ===================== *)
+Definition v (x y : Z) : vtx Z := Build_vtx x y 0 0.
+(* a valid polygon with a hole, inside a nested collection with empty members *)
+Definition ex_shell := MkLine XY [v 0 0; v 10 0; v 10 8; v 0 8; v 0 0].
+Definition ex_hole := MkLine XY [v 2 2; v 4 2; v 4 4; v 2 2].
+Definition ex_poly := MkPoly XY [ex_shell; ex_hole].
+Definition ex_geom : geomT Z :=
+  GColl XY [ GPoint (MkPoint XY None); GPoly ex_poly;
+             GColl XY [ GMPoint XY [MkPoint XY None; MkPoint XY (Some (v (-3) 5))]; GLine (MkLine XY []) ];
+             GMPoly XY [MkPoly XY []; ex_poly] ].
+Example ex_hypotheses : holes_in_shell_box ZO ex_geom = true /\ shells_nonempty ex_geom = true.
+Proof. vm_compute. split; reflexivity. Qed.
+Example ex_envelope : env_of ZO ex_geom = Some (MkBox (-3) 0 10 8).
+Proof. vm_compute. reflexivity. Qed.
+Example ex_tight : tight_spec ZO (ctrl_xys ex_geom) (env_of ZO ex_geom) = true.
+Proof. vm_compute. reflexivity. Qed.
+
+(* the hypothesis of env_of_tight is needed: an (invalid) polygon whose hole sticks out of the
+   exterior ring's box has a control point outside its own Envelope() *)
+Definition bad_hole := MkLine XY [v 2 2; v 14 2; v 4 4; v 2 2].
+Definition bad_poly : geomT Z := GPoly (MkPoly XY [ex_shell; bad_hole]).
+Theorem env_tight_needs_hole_hypothesis_refuted :
+  exists g : geomT Z, holes_in_shell_box ZO g = false /\
+    exists p, In p (ctrl_xys g) /\ contains ZO (env_of ZO g) p = false.
+Proof.
+  exists bad_poly. split; [vm_compute; reflexivity|].
+  exists (14, 2). split; [vm_compute; tauto|vm_compute; reflexivity].
+Qed.
+Print Assumptions env_tight_needs_hole_hypothesis_refuted.
+
+(* the hypothesis of env_of_empty_iff is needed: an (invalid) polygon with an empty exterior ring
+   and a non-empty hole is not empty, has control points, and has the empty envelope *)
+Theorem env_empty_needs_shell_hypothesis_refuted :
+  exists g : geomT Z, shells_nonempty g = false /\ is_empty g = false /\ geom_vs g <> [] /\ env_of ZO g = None.
+Proof.
+  exists (GPoly (MkPoly XY [MkLine XY []; ex_hole])).
+  repeat split; try (vm_compute; reflexivity). vm_compute. discriminate.
+Qed.
+Print Assumptions env_empty_needs_shell_hypothesis_refuted.
+
+(* well-formedness is needed for the point-set reading of Intersects: an ill-formed box (min > max,
+   not constructible through the exported API) has no point but "intersects" *)
+Example intersects_needs_wf :
+  intersects ZO (Some (MkBox 3 0 1 5)) (Some (MkBox 0 0 4 4)) = true /\
+  forall p, ~ inside (MkBox 3 0 1 5) p.
+Proof. split; [reflexivity|]. intros p [H _]. cbn in H. lia. Qed.
+
+(* non-trivial instances of the other statements *)
+Example ex_dist2 : dist2 (Some (MkBox 0 0 2 2)) (Some (MkBox 5 6 7 9)) = Some 25.
+Proof. reflexivity. Qed.
+Example ex_classes :
+  map (fun e => (env_is_empty e, env_is_point ZO e, env_is_line ZO e, env_is_rectangle ZO e))
+      [None; Some (MkBox 1 2 1 2); Some (MkBox 1 2 1 7); Some (MkBox 1 2 4 2); Some (MkBox 1 2 4 7)]
+  = [(true, false, false, false); (false, true, false, false); (false, false, true, false);
+     (false, false, true, false); (false, false, false, true)].
+Proof. reflexivity. Qed.
+Example ex_rotation :
+  rotate_closed 2 [v 0 0; v 10 0; v 10 8; v 0 8; v 0 0] = [v 10 8; v 0 8; v 0 0; v 10 0; v 10 8].
+Proof. reflexivity. Qed.
+Example ex_center : center (Some (MkBox 0 1 3 5)) = Some (3 # 2, 6 # 2)%Q.
+Proof. reflexivity. Qed.
